@@ -33,6 +33,9 @@ GateTypesQ ==
     \cup {Enum("", <<Var(0, <<>>), Var(0, <<a>>)>>) : a \in {U8, P("u16"), Str}}
     \cup {Enum("", <<Var(0, <<a>>), Var(0, <<>>)>>) : a \in {U8}}
     \cup {Enum("", <<Var(0, <<U8>>), Var(0, <<U8>>)>>), Enum("", <<Var(0, <<U8, U8>>), Var(0, <<>>)>>)}
+    \* ignored fields are not part of the wire layout; results, ranges and maps with other value types
+    \cup {StructA("Rust", <<U8, P("u16")>>, <<Plain, Ign>>), StructA("Rust", <<P("u16"), U8>>, <<Ign, Plain>>), StructA("C", <<U8, Str, U8>>, <<Plain, Ign, Plain>>)}
+    \cup {Res(U8, U8), Res(U8, Str), Res(Str, U8), Rng(U8), Rng(P("u16")), Map("BTreeMap", Str, U8), Map("BTreeMap", U8, P("u16"))}
 GateTypes == GateTypesQ \cup (IF Tier = "thorough" THEN
     {Struct(r, <<a, b, c>>) : r \in {"Rust"}, a \in {U8, P("u16")}, b \in {U8, Str}, c \in {U8, P("u32")}}
     \cup {Vec("Vec", Struct("Rust", <<a, b>>)) : a \in {U8, P("u16")}, b \in {U8, Str}}
